@@ -289,6 +289,8 @@ func (db *ContractDB) LoadContractFile(path, pkgPath string) error {
 				return err
 			}
 			cur.Decreases = e
+		case "nooverflow":
+			cur.NoOverflow = true
 		case "nopanic":
 			// default
 		case "maypanic":
@@ -360,6 +362,9 @@ func (db *ContractDB) LoadContractFile(path, pkgPath string) error {
 			r := strings.TrimSpace(rest)
 			if strings.HasPrefix(r, "at entry") {
 				r = "before call @entry" + strings.TrimPrefix(r, "at entry")
+			}
+			if strings.HasPrefix(r, "at return") {
+				r = "before call @return" + strings.TrimPrefix(r, "at return")
 			}
 			after := strings.HasPrefix(r, "after call ")
 			r = strings.TrimPrefix(strings.TrimPrefix(r, "before call "), "after call ")
